@@ -5,6 +5,14 @@ go 1.25.8
 require (
 	github.com/anishathalye/porcupine v1.3.0
 	github.com/conduitio/conduit v0.0.0
+	github.com/conduitio/conduit-commons v0.6.0
+	github.com/conduitio/conduit-connector-protocol v0.9.5
+	github.com/conduitio/conduit-processor-sdk v0.5.2-0.20260727035706-8376e49ad512
+	github.com/google/uuid v1.6.0
+	github.com/rs/zerolog v1.35.1
+	google.golang.org/genproto/googleapis/rpc v0.0.0-20260803160001-6ac0973c030d
+	google.golang.org/grpc v1.83.0
+	google.golang.org/protobuf v1.36.12
 )
 
 require (
@@ -38,23 +46,23 @@ require (
 	github.com/blang/semver v3.5.1+incompatible // indirect
 	github.com/cenkalti/backoff/v5 v5.0.3 // indirect
 	github.com/cespare/xxhash/v2 v2.3.0 // indirect
-	github.com/conduitio/conduit-commons v0.6.0 // indirect
 	github.com/conduitio/conduit-connector-file v0.10.8 // indirect
 	github.com/conduitio/conduit-connector-generator v0.10.4 // indirect
 	github.com/conduitio/conduit-connector-kafka v0.12.5 // indirect
 	github.com/conduitio/conduit-connector-log v0.7.5 // indirect
 	github.com/conduitio/conduit-connector-postgres v0.14.2 // indirect
-	github.com/conduitio/conduit-connector-protocol v0.9.5 // indirect
 	github.com/conduitio/conduit-connector-s3 v0.9.3 // indirect
 	github.com/conduitio/conduit-connector-sdk v0.14.2 // indirect
-	github.com/conduitio/conduit-processor-sdk v0.5.2-0.20260727035706-8376e49ad512 // indirect
 	github.com/conduitio/conduit-schema-registry v0.2.6 // indirect
 	github.com/conduitio/evolviconf v0.1.0 // indirect
 	github.com/conduitio/evolviconf/evolviyaml v0.1.0 // indirect
 	github.com/conduitio/yaml/v3 v3.3.0 // indirect
 	github.com/cyberphone/json-canonicalization v0.0.0-20241213102144-19d51d7fe467 // indirect
+	github.com/dgraph-io/badger/v4 v4.9.1 // indirect
+	github.com/dgraph-io/ristretto/v2 v2.2.0 // indirect
 	github.com/digitorus/pkcs7 v0.0.0-20230818184609-3a137a874352 // indirect
 	github.com/digitorus/timestamp v0.0.0-20231217203849-220c5c2851b7 // indirect
+	github.com/dustin/go-humanize v1.0.1 // indirect
 	github.com/fatih/color v1.19.0 // indirect
 	github.com/fsnotify/fsnotify v1.10.1 // indirect
 	github.com/gammazero/deque v1.2.1 // indirect
@@ -88,9 +96,9 @@ require (
 	github.com/golang/protobuf v1.5.4 // indirect
 	github.com/golang/snappy v1.0.0 // indirect
 	github.com/google/certificate-transparency-go v1.3.3 // indirect
+	github.com/google/flatbuffers v25.2.10+incompatible // indirect
 	github.com/google/go-cmp v0.7.0 // indirect
 	github.com/google/go-containerregistry v0.21.7 // indirect
-	github.com/google/uuid v1.6.0 // indirect
 	github.com/grpc-ecosystem/grpc-gateway/v2 v2.30.0 // indirect
 	github.com/hamba/avro/v2 v2.31.0 // indirect
 	github.com/hashicorp/go-hclog v1.6.3 // indirect
@@ -130,7 +138,6 @@ require (
 	github.com/prometheus/client_model v0.6.2 // indirect
 	github.com/prometheus/common v0.70.1 // indirect
 	github.com/prometheus/procfs v0.21.1 // indirect
-	github.com/rs/zerolog v1.35.1 // indirect
 	github.com/samber/lo v1.53.0 // indirect
 	github.com/samber/slog-common v0.21.0 // indirect
 	github.com/samber/slog-zerolog/v2 v2.9.2 // indirect
@@ -174,9 +181,6 @@ require (
 	golang.org/x/time v0.15.0 // indirect
 	golang.org/x/xerrors v0.0.0-20240903120638-7835f813f4da // indirect
 	google.golang.org/genproto/googleapis/api v0.0.0-20260803160001-6ac0973c030d // indirect
-	google.golang.org/genproto/googleapis/rpc v0.0.0-20260803160001-6ac0973c030d // indirect
-	google.golang.org/grpc v1.83.0 // indirect
-	google.golang.org/protobuf v1.36.12 // indirect
 	gopkg.in/tomb.v1 v1.0.0-20141024135613-dd632973f1e7 // indirect
 	gopkg.in/tomb.v2 v2.0.0-20161208151619-d5d1b5820637 // indirect
 	k8s.io/klog/v2 v2.140.0 // indirect
